@@ -457,6 +457,25 @@ namespace jsonpointer {
 
     namespace detail {
 
+    // RFC 6901 array-index = %x30 / ( %x31-39 *(%x30-39) )
+    template <typename StringViewT>
+    bool to_array_index(const StringViewT& token, std::size_t& index)
+    {
+        if (token.empty() || (token.size() > 1 && token[0] == '0'))
+        {
+            return false;
+        }
+        for (auto c : token)
+        {
+            if (c < '0' || c > '9')
+            {
+                return false;
+            }
+        }
+        auto result = jsoncons::dec_to_integer(token.data(), token.length(), index);
+        return static_cast<bool>(result);
+    }
+
     template <typename Json>
     const Json* resolve(const Json* current, const typename Json::string_view_type& buffer, std::error_code& ec)
     {
@@ -468,8 +487,7 @@ namespace jsonpointer {
                 return current;
             }
             std::size_t index{0};
-            auto result = jsoncons::dec_to_integer(buffer.data(), buffer.length(), index);
-            if (!result)
+            if (!to_array_index(buffer, index))
             {
                 ec = jsonpointer_errc::invalid_index;
                 return current;
@@ -509,8 +527,7 @@ namespace jsonpointer {
                 return current;
             }
             std::size_t index{0};
-            auto result = jsoncons::dec_to_integer(buffer.data(), buffer.length(), index);
-            if (!result)
+            if (!to_array_index(buffer, index))
             {
                 ec = jsonpointer_errc::invalid_index;
                 return current;
@@ -759,8 +776,7 @@ namespace jsonpointer {
             else
             {
                 std::size_t index{0};
-                auto result = jsoncons::dec_to_integer(buffer.data(), buffer.length(), index);
-                if (!result)
+                if (!detail::to_array_index(buffer, index))
                 {
                     ec = jsonpointer_errc::invalid_index;
                     return;
@@ -900,8 +916,7 @@ namespace jsonpointer {
             else
             {
                 std::size_t index{0};
-                auto result = jsoncons::dec_to_integer(buffer.data(), buffer.length(), index);
-                if (!result)
+                if (!detail::to_array_index(buffer, index))
                 {
                     ec = jsonpointer_errc::invalid_index;
                     return;
@@ -1045,8 +1060,7 @@ namespace jsonpointer {
             else
             {
                 std::size_t index{0};
-                auto result = jsoncons::dec_to_integer(buffer.data(), buffer.length(), index);
-                if (!result)
+                if (!detail::to_array_index(buffer, index))
                 {
                     ec = jsonpointer_errc::invalid_index;
                     return;
@@ -1154,8 +1168,7 @@ namespace jsonpointer {
             else
             {
                 std::size_t index{};
-                auto result = jsoncons::dec_to_integer(buffer.data(), buffer.length(), index);
-                if (!result)
+                if (!detail::to_array_index(buffer, index))
                 {
                     ec = jsonpointer_errc::invalid_index;
                     return;
